@@ -14,8 +14,35 @@ def bounded_by_param(bi, operand, param, depth=0):
     if operand.place is None:
         return None
     o = bi.trace(operand)
+    if o.kind == "local" and isinstance(o.data, int) and not o.path:
+        # several assignments (if / else): every one of them must be bounded
+        rs = []
+        for (db, di) in bi.defs.get(o.data, []):
+            if di >= 0:
+                st = bi.stmt(db, di)
+                if st.rv.k in ("use", "cast") and st.rv.ops:
+                    if st.rv.k == "cast":
+                        rs.append(bounded_by_param(bi, st.rv.ops[0], param, depth + 1))
+                    else:
+                        rs.append(bounded_by_param(bi, st.rv.ops[0], param, depth + 1))
+                else:
+                    rs.append(None)
+            else:
+                t = bi.body.blocks[db].term
+                n = t.callee.path.split("::")[-1] if t.k == "call" and t.callee is not None else ""
+                if n in ("len", "capacity", "count"):
+                    rs.append(False)       # a container size: unrelated to the requested limit
+                else:
+                    rs.append(None)
+        if rs and all(r is True for r in rs):
+            return True
+        if any(r is False for r in rs):
+            return False
+        return None
     if o.kind == "param" and o.data == param and not o.path:
         return True
+    if o.kind == "call" and bi.call_at(o.data).callee is not None and bi.call_at(o.data).callee.path.split("::")[-1] in ("len", "capacity", "count"):
+        return False
     if o.kind == "cast":
         s = bi.stmt(*o.data)
         frm, to = bi.body.ty(s.rv.j["from"]), bi.body.ty(s.rv.j["to"])
